@@ -23,7 +23,7 @@ def _delay_args(txd, rxd):
     return ", ".join(a)
 
 
-def flag_design(txd, rxd, contexts, dq=False):
+def flag_design(txd, rxd, contexts, dq=False, redundant_clear=False):
     lines = [HEADER, "class W(cohdl.Entity):", "    clk = Port.input(Bit)", "    reset = Port.input(Bit)",
              "    p_try = Port.input(Bit)", "    c_ready = Port.input(Bit)",
              "    obs_clear = Port.output(Bit, default=False)", "    obs_set = Port.output(Bit, default=False)", "    recv = Port.output(Bit, default=False)", "    def architecture(self):",
@@ -31,6 +31,11 @@ def flag_design(txd, rxd, contexts, dq=False):
              f"        flag = std.SyncFlag({_delay_args(txd, rxd)})"]
     prod = ["self.obs_clear ^= flag.is_clear()", "if self.p_try:", "    flag.set()"]
     cons = ["if self.c_ready and flag.is_set():", "    flag.clear()", "    self.recv ^= True"]
+    if redundant_clear:
+        # clear() is also issued when the consumer sees nothing pending: it must have no effect (an event still travelling
+        # through the delay line is neither lost nor observed early)
+        cons = ["if self.c_ready:", "    if flag.is_set():", "        self.recv ^= True", "    flag.clear()"]
+        prod = ["self.obs_clear ^= flag.is_clear()", "if self.p_try:", "    flag.set()"]
     if dq:
         # every side queries the flag more than once before it uses it (each query must see the same, driven, copy)
         prod = ["self.obs_clear ^= flag.is_clear()", "if self.p_try and flag.is_clear():", "    flag.set()"]
@@ -135,6 +140,7 @@ def jobs(tier):
         js.append((f"SyncFlag|tx={txd}|rx={rxd}|contexts={ctxs}", flag_design(txd, rxd, ctxs), {"reset": 1, "p_try": 1, "c_ready": 1}, ["obs_clear", "recv"], K, lambda c=ctxs: FlagMonitor(c == 1)))
         js.append((f"Mailbox|tx={txd}|rx={rxd}|contexts={ctxs}", mailbox_design(txd, rxd, ctxs), {"reset": 1, "p_try": 1, "c_ready": 1, "payload": PW}, ["sent", "recv", "recv_data"], K, MailboxMonitor))
         if ctxs == 2:
+            js.append((f"SyncFlag|tx={txd}|rx={rxd}|redundant clear", flag_design(txd, rxd, ctxs, redundant_clear=True), {"reset": 1, "p_try": 1, "c_ready": 1}, ["obs_clear", "recv"], K, lambda: FlagMonitor(False)))
             js.append((f"SyncFlag|tx={txd}|rx={rxd}|repeated queries", flag_design(txd, rxd, ctxs, dq=True), {"reset": 1, "p_try": 1, "c_ready": 1}, ["obs_clear", "recv"], K, lambda: FlagMonitor(False)))
             js.append((f"Mailbox|tx={txd}|rx={rxd}|repeated queries", mailbox_design(txd, rxd, ctxs, dq=True), {"reset": 1, "p_try": 1, "c_ready": 1, "payload": PW}, ["sent", "recv", "recv_data"], K, MailboxMonitor))
         js.append((f"Mailbox-progress|tx={txd}|rx={rxd}|contexts={ctxs}", mailbox_design(txd, rxd, ctxs), {"reset": 1, "p_try": 1, "c_ready": 1, "payload": PW}, ["sent", "recv", "recv_data"], 10, lambda: MailboxLiveness(10)))
